@@ -10,3 +10,7 @@ Definition EUID_SIZE : N := 12.
 Definition CHECKSUM_SIZE : N := 4.
 Definition PREAMBLE : N := 254.
 Definition PREAMBLE_SEPARATOR : N := 170.
+Definition UID_ALL_MANUFACTURERS : N := 65535.
+Definition UID_ALL_DEVICES : N := 4294967295.
+Definition UID_BROADCAST_U64 : N := 281474976710655.
+Definition UID_SIZE : N := 6.
